@@ -486,9 +486,19 @@ def check_components(res, comp, prob, var, pts, has_info=True):
     worst = 0.0
     for x in pts:
         res.transitions += 1
-        mean = _arr(prob.model.forward(x)).ravel()
+        try:
+            mean = _arr(prob.model.forward(x)).ravel()
+            lp = float(_arr(prior.logd(x)).ravel()[0])
+        except HarnessError:
+            raise
+        except Exception as e:
+            res.fail("C17|%s|forward|raises,posterior-lattice" % comp, "model.forward / prior.logd raised %r on an admissible "
+                     "parameter vector" % (e,), x=x)
+            return
+        if mean.shape != d.shape:
+            res.fail("C17|%s|forward|output-size" % comp, "model.forward(x) has %d entries, the data %d" % (mean.size, d.size))
+            return
         ll_ref = refs.gauss_logpdf(d, mean, np.asarray(var, float) if np.ndim(var) else float(var))
-        lp = float(_arr(prior.logd(x)).ravel()[0])
         try:
             got = float(_arr(post.logd(x)).ravel()[0])
             gl = float(_arr(lik.logd(x)).ravel()[0])
